@@ -170,6 +170,7 @@ def check(ctx):
                 ctx.ob("R02.3", f"{k}|slot-index", False, f"{body.f['file']}:{body.f['line']}", "no slot access found")
     ctx.floor("R02.3", 4)
     # ---------------------------------------------------------------- R02.4 full-sync ring: complete critical sections
+    lockrules.check_spin_lock_primitive(ctx, "R02.4")
     lock_pred = lambda r: r[0] == "lock" and r[1] and r[1][-1] == "concurrency_guard"
     EXEMPT = {"available_elements_count": "length query documented as unsynchronised", "debug_info": "diagnostics",
               "peek_remaining": "unsafe fn; in-crate callers hold streams_lock or poll a racy predicate",
